@@ -57,6 +57,8 @@ def label_universe(r, n: int) -> tuple[list[str], list[str]]:
             labels.add(d + "/" + component(r))
         elif k < 0.7:
             labels.add(d + "/" + component(r) + "/" + component(r))
+        elif k < 0.74:
+            labels.add(d + r.choice(["0", "0", ".", "-", "~", "/0"]))  # the range bounds themselves
         elif k < 0.8:
             labels.add(d + r.choice(["0", ".", "-", "x", "_"]) + component(r))  # sibling by name prefix
         elif k < 0.9:
@@ -301,23 +303,41 @@ async def site_justified(r, n) -> list[Case]:
 
 
 async def site_clean(r, n) -> list[Case]:
+    """`clean.search_matching_paths` on a read-only connection to a database file, as the
+    `stepup clean` tool opens it (`tool.connect_graph_db` -> `connect(path, read_only=True)`)."""
+    import os
+    import shutil
+    import tempfile
+
     from path import Path
     from stepup.core.clean import search_matching_paths
+    from stepup.core.sqlite3 import DBSession, connect
+    from stepup.core.workflow import Workflow
 
     out = []
-    for _ in range(n):
-        dirs, labels = label_universe(r, 10)
-        async with implkit.workflow() as wf:
-            async with wf.db:
-                wf.define_step(wf.root, "boot", need=Need.PLAN)
-                boot = wf.find(implkit.Step, "boot")
-                wf.declare_static_files(boot, labels)
-                con = wf.db._con
+    tmp = tempfile.mkdtemp(prefix="verif-c18-")
+    try:
+        for k in range(n):
+            dirs, labels = label_universe(r, 10)
+            dbpath = os.path.join(tmp, f"graph{k}.db")
+            with DBSession.open(dbpath) as db:
+                wf = Workflow(db, dir_queue=None)
+                await wf.initialize()
+                async with wf.db:
+                    wf.define_step(wf.root, "boot", need=Need.PLAN)
+                    boot = wf.find(implkit.Step, "boot")
+                    wf.declare_static_files(boot, labels)
+            con = connect(dbpath, read_only=True)
+            try:
                 for arg in dirs + r.sample(labels, 3):
                     got = canon(search_matching_paths(con, {Path(arg)}))
                     exp = sorted({l for l in labels if l == arg or l.startswith(arg + "/")})
                     out.append(Case("clean_search_matching_paths", f"c18 clean {hexs(arg)} {hexlist(sorted(labels))}",
                                     got, {"arg": arg, "labels": labels}, ("set", exp)))
+            finally:
+                con.close()
+    finally:
+        shutil.rmtree(tmp, ignore_errors=True)
     return out
 
 
